@@ -618,6 +618,7 @@ def _refit(f, rec):
     o["errors"] = W._get(lambda: list(f.parameter_errors))
     o["cost"] = W._get(lambda: float(f.cost_function_value))
     o["ndf"] = W._get(lambda: f.ndf)
+    o["gof_per_ndf"] = W._get(lambda: (f.goodness_of_fit / f.ndf) if (f.goodness_of_fit is not None and f.ndf) else None)
     o["asym"] = W._get(lambda: f.get_result_dict()["asymmetric_parameter_errors"])
     return o
 
@@ -641,6 +642,12 @@ def _compare_refit(ra, rb, rec):
         note(key, ok)
         if not ok:
             rec.add("refit:" + key, ra[key], rb[key])
+    if not _well_posed(ra):
+        # DESIGN 3.4: numerical results of an ill-posed minimisation say nothing about kafe2; such refits only have to
+        # run (both did) and agree in did_fit / ndf
+        if res is not None:
+            res.outcomes[("fit", "refit:numbers", "skipped-ill-posed")] += 1
+        return
     va, vb, ea, eb = ra["values"], rb["values"], ra["errors"], rb["errors"]
     bad = isinstance(va, tuple) or isinstance(vb, tuple) or isinstance(ea, tuple) or isinstance(eb, tuple)
     if bad:
@@ -670,6 +677,25 @@ def _compare_refit(ra, rb, rec):
     note("errors", ok)
     if not ok:
         rec.add("refit:errors", ea, eb)
+
+
+def _well_posed(r):
+    """the refit of the ORIGINAL object is a well-posed problem: finite results, relative parameter uncertainties
+    <= 15 % for free parameters, goodness of fit per degree of freedom in [0.3, 3] where there is one"""
+    v, e = r["values"], r["errors"]
+    if isinstance(v, tuple) or isinstance(e, tuple) or isinstance(r["cost"], tuple):
+        return False
+    for x, s in zip(v, e):
+        if x != x or s != s or abs(x) == float("inf") or abs(s) == float("inf"):
+            return False
+        if s > 0 and s > 0.15 * max(abs(x), 1e-300):
+            return False
+    g = r.get("gof_per_ndf")
+    if isinstance(g, tuple):
+        return False
+    if g is not None and not (0.3 <= g <= 3.0):
+        return False
+    return True
 
 
 def _examine_state(spec, workdir, rec):
